@@ -101,14 +101,18 @@ def checkOrderLimit (b : Block) (core out : List Row) : Bool :=
 /-- deterministic evaluation of the block's core with errors surfaced -/
 def specCore (b : Block) (inp : List Row) : Option (List Row) := blockCore b inp
 
-/-- is the cut of an inner ORDER BY/LIMIT ambiguous (ties across the cut between different rows)? -/
+/-- is the cut of an inner ORDER BY/LIMIT ambiguous? The rows tied with the last included row on the ORDER BY key
+    straddle the cut and are not all the same row: which of them are kept is then up to the implementation. -/
 def cutAmbiguous (b : Block) (core : List Row) : Bool :=
   match b.limit with
   | none => false
   | some n =>
     let full := sortCanon b.order core
     match full[n - 1]?, full[n]? with
-    | some x, some y => n > 0 && keyCmp (mults b.order) (keyOf b.order x) (keyOf b.order y) == 0 && !rowEq x y
+    | some x, some y =>
+      let sameKey (r : Row) : Bool := keyCmp (mults b.order) (keyOf b.order x) (keyOf b.order r) == 0
+      let tie := full.filter sameKey
+      n > 0 && sameKey y && !(tie.all fun r => rowEq x r)
     | _, _ => false
 
 end Octo.Sql
